@@ -35,12 +35,13 @@ PROPS = {
 }
 # cfg suffix -> property whose predicates TLC must report violated
 DEVIATIONS = {
-    "SubChange": "C12", "AssignAllMembers": "C12",
-    "HbNoGen": "C13", "SyncNoGen": "C13", "CommitNoGen": "C13",
+    "SubChange": "C12", "AssignAllMembers": "C12", "SyncLookupUnlocked": "C12",
+    "HbNoGen": "C13", "SyncNoGen": "C13", "CommitNoGen": "C13", "HbWriteUnlocked": "C13",
     "JoinOkEarly": "C14",
-    "RestoreDropsAsg": "C15", "RestoreGenZero": "C15",
-    "HbRefresh": "C43", "ExpireIgnoresHb": "C43", "NoLaggerDrop": "C43", "NoExpire": "C43",
+    "RestoreDropsAsg": "C15", "RestoreGenZero": "C15", "SyncRefusesIdle": "C15", "CleanupWriteUnlocked": "C15",
+    "HbRefresh": "C43", "ExpireIgnoresHb": "C43", "NoLaggerDrop": "C43", "NoExpire": "C43", "LaggerSkippedOnExpiry": "C43",
 }
+DEV_REB = {"LaggerSkippedOnExpiry": 3}   # rebalance timeout of the deviation config when it is not 2 (see gen_cfg.py)
 NP = {"NP21": {"t1": 2, "t2": 1}, "NP32": {"t1": 3, "t2": 2}}
 EVENTS = {"Join", "Sync", "Heartbeat", "Commit", "Leave", "Tick", "Failover", "DeleteGroups"}
 OVERLAY = {"pkg/broker/zz_verif_group_test.go": None}
@@ -67,12 +68,12 @@ def split(rows):
     return runs
 
 
-def sched(np, steps):
-    return {"sess": 2, "reb": 2, "nparts": NP[np], "np": np, "steps": steps}
+def sched(np, steps, reb=2):
+    return {"sess": 2, "reb": reb, "nparts": NP[np], "np": np, "steps": steps}
 
 
-def trace_cfg(np):
-    return open(os.path.join(DIR, "Trace_Group.cfg")).read().replace("NParts <- NP21", "NParts <- " + np)
+def trace_cfg(np, reb=2):
+    return open(os.path.join(DIR, "Trace_Group.cfg")).read().replace("NParts <- NP21", "NParts <- " + np).replace("RebT = 2", "RebT = %d" % reb)
 
 
 def deviation_schedules(ctx, names):
@@ -90,11 +91,13 @@ def deviation_schedules(ctx, names):
 def simulations(ctx, quick):
     jobs = []  # (cfg, num, depth, seed)
     if quick:
-        jobs = [("Sim_Group.cfg", 60, 24, ctx.seed), ("Sim_Group_clock.cfg", 90, 24, ctx.seed)]
+        jobs = [("Sim_Group.cfg", 60, 24, ctx.seed), ("Sim_Group_clock.cfg", 90, 24, ctx.seed), ("Sim_Group_race.cfg", 50, 24, ctx.seed)]
     else:
         for i in range(4):
             jobs.append(("Sim_Group.cfg", 350, 28, ctx.seed * 1000 + i))
             jobs.append(("Sim_Group_clock.cfg", 350, 28, ctx.seed * 1000 + 100 + i))
+        for i in range(2):
+            jobs.append(("Sim_Group_race.cfg", 350, 28, ctx.seed * 1000 + 200 + i))
 
     def one(job):
         cfg, num, depth, seed = job
@@ -111,12 +114,12 @@ def simulations(ctx, quick):
 def pipeline(ctx, prop):
     quick = ctx.quick()
     # exhaustive runs (repaired design).  thorough: 3 members, short session, current-generation requests (NextCore) AND 2 members, session 2, both store kinds, full Next
-    cfgs = ["MC_Group_quick.cfg"] if quick else ["MC_Group_thorough.cfg", "MC_Group_thorough2.cfg"]
+    cfgs = ["MC_Group_quick.cfg"] if quick else ["MC_Group_thorough.cfg", "MC_Group_thorough3.cfg", "MC_Group_thorough2.cfg"]
 
     def run_mc(cfg):
         return T.model_check(ctx, T.stage(ctx, DIR, "mc-" + cfg.split(".")[0]), "MC_Group.tla", cfg, coverage=(not quick and cfg == cfgs[-1]),
-                             timeout=5400, workers=None if quick else 8)
-    with ThreadPoolExecutor(max_workers=2) as ex:
+                             timeout=5400, workers=None if quick else 6)
+    with ThreadPoolExecutor(max_workers=3) as ex:
         mcs = list(ex.map(run_mc, cfgs))
     mc = mcs[0]
     mc.cov_run = mcs[-1]   # per-action coverage is taken on the configuration with the full Next (thorough2)
@@ -127,7 +130,7 @@ def pipeline(ctx, prop):
     scheds, labels = [], []
     devs = deviation_schedules(ctx, names)
     for name, h, inv in devs:
-        scheds.append(sched("NP21", h)); labels.append("dev:" + name)
+        scheds.append(sched("NP21", h, DEV_REB.get(name, 2))); labels.append("dev:" + name)
     sims = simulations(ctx, quick)
     for cfg, h in sims:
         scheds.append(sched("NP32", h)); labels.append("sim:" + cfg.split(".")[0])
@@ -137,8 +140,10 @@ def pipeline(ctx, prop):
     if len(runs) != len(scheds):
         raise Broken("harness recorded %d runs for %d schedules" % (len(runs), len(scheds)))
     for i, run in enumerate(runs):
-        if len(run) != len(scheds[i]["steps"]) + 1:
-            raise Broken("schedule %d (%s): %d steps but %d recorded lines" % (i, labels[i], len(scheds[i]["steps"]), len(run) - 1))
+        # a "Release" step records a line only when a store call was really parked outside the lock
+        need = sum(1 for x in scheds[i]["steps"] if x["a"] != "Release")
+        if len(run) - 1 < need:
+            raise Broken("schedule %d (%s): %d steps but %d recorded lines" % (i, labels[i], need, len(run) - 1))
     seen = {r["ev"] for r in rows}
     if not EVENTS <= seen:
         raise Broken("vacuous run: no recorded step of kind %s" % sorted(EVENTS - seen))
@@ -172,17 +177,17 @@ def check(ctx, prop):
         ctx.log("predicates of other properties false in this run (reported by their own checks): %s" % json.dumps(other, sort_keys=True))
     # layer C per partition-count configuration
     conf = {"accepted": 0, "rejected": 0, "first_rejection": None}
-    for np in sorted({s["np"] for s in scheds}):
-        idxs = [i for i, s in enumerate(scheds) if s["np"] == np]
+    for np, reb in sorted({(s["np"], s["reb"]) for s in scheds}):
+        idxs = [i for i, s in enumerate(scheds) if (s["np"], s["reb"]) == (np, reb)]
         sub = [r for i in idxs for r in runs[i]]
-        reached, total, _ = layers.conform(ctx, DIR, "Trace_Group.tla", "Trace_Group.cfg", sub, name="conf-" + np, cfg_text=trace_cfg(np), timeout=1800)
+        reached, total, _ = layers.conform(ctx, DIR, "Trace_Group.tla", "Trace_Group.cfg", sub, name="conf-%s-%d" % (np, reb), cfg_text=trace_cfg(np, reb), timeout=1800)
         if reached == total:
             conf["accepted"] += len(idxs)
         else:
             conf["rejected"] += 1
             if conf["first_rejection"] is None:
                 bad = sub[reached] if reached < len(sub) else None
-                conf["first_rejection"] = {"np": np, "line": {k2: v for k2, v in (bad or {}).items() if k2 != "rst"}}
+                conf["first_rejection"] = {"np": np, "reb": reb, "line": {k2: v for k2, v in (bad or {}).items() if k2 != "rst"}}
     st = self_test(ctx, prop, runs)
     level = "model_checking"
     drift = conf["rejected"] > 0
@@ -207,6 +212,9 @@ def check(ctx, prop):
                 "non-trivial = observed trace has >=2 members joining, >=1 successful SyncGroup and >=1 Tick/Failover/Leave",
         "deviation_schedules": {n: inv for n, _, inv in devs}, "conformance": ("drift" if drift else "accepted"), "conformance_detail": conf,
         "observed_step_kinds": kinds, "binding_self_test": st,
+        "held_steps": {k2: sum(run[0].get("holds", {}).get(k2, 0) for run in runs) for k2 in ("outside", "underlock", "noio")},
+        "held_steps_rule": "steps with hold=true park at their first gated store call (Metadata / Put-/DeleteConsumerGroup); underlock = the call was made "
+                           "under c.mu, so the step ran as a plain sequential call (hold not replayed); outside = the call was parked outside the lock while later steps ran",
         "samples": [scheds[0], scheds[-1], [{k2: v for k2, v in r.items() if k2 != "rst"} for r in runs[0][:4]]],
     }
     if not quick:
@@ -256,7 +264,7 @@ def self_test(ctx, prop, runs):
     bad = copy.deepcopy(run)
     bad[-1]["st"]["gen"] += 1
     np = "NP21" if len(bad[0]["tps"]) == 3 else "NP32"
-    reached, total, _ = layers.conform(ctx, DIR, "Trace_Group.tla", "Trace_Group.cfg", bad, name="selfC", cfg_text=trace_cfg(np))
+    reached, total, _ = layers.conform(ctx, DIR, "Trace_Group.tla", "Trace_Group.cfg", bad, name="selfC", cfg_text=trace_cfg(np, bad[0]["reb"]))
     if reached == total:
         raise Broken("binding self-test: conformance layer accepted a corrupted generation")
     return {"observation_layer_flags_corrupted_field": inv, "conformance_layer_rejects_corrupted_state": True}
